@@ -136,7 +136,8 @@ def no_rewriter_stage(ctx: Ctx) -> Result:
         for k in (0, 3):
             types = [get_type(v, k) for v in vals]
             direct = shrink_types(types, k)
-            traces = [CallTrace(S.mfunc, {"x": t}, t, None) for t in types]
+            # (even histories: the calls differ in their argument too; odd ones: one argument type, different results)
+            traces = [CallTrace(S.mfunc, {"x": t if hi % 2 == 0 else int}, t, None) for t in types]
             texts = {}
             case = {"values": list(h), "k": k, "family": "no-rewriter", "hi": hi}
             try:
